@@ -898,15 +898,25 @@ def r11_unmut_param(src, ed, fn, name):
     lo, hi = fn.params
     hits = [i for i in range(lo + 1, hi) if src.is_(i, "mut", "ident") and src.is_(i + 1, name, "ident")
             and src.is_(i + 2, ":") and (src.is_(i - 1, "(") or src.is_(i - 1, ","))]
-    if len(hits) != 1:
-        raise Drift("fn %s: parameter `mut %s` not found" % (fn.key, name))
-    i = hits[0]
+    plain = [i for i in range(lo + 1, hi) if src.is_(i, name, "ident") and src.is_(i + 1, ":")
+             and (src.is_(i - 1, "(") or src.is_(i - 1, ","))]
     if not fn.body:
         raise Drift("fn %s has no body" % fn.key)
-    ed.replace(src.toks[i].start, src.toks[i + 1].end, name + "_0", "R11",
-               "mut by-value parameter renamed; rebinding inserted at body start")
-    ed.insert(src.toks[fn.body[0]].end, "\n        let mut %s = %s_0;" % (name, name), "R11",
-              "rebinding of the former `mut` parameter")
+    if len(hits) == 1:
+        i = hits[0]
+        ed.replace(src.toks[i].start, src.toks[i + 1].end, name + "_0", "R11",
+                   "mut by-value parameter renamed; rebinding inserted at body start")
+        ed.insert(src.toks[fn.body[0]].end, "\n        let mut %s = %s_0;" % (name, name), "R11",
+                  "rebinding of the former `mut` parameter")
+    elif len(plain) == 1:
+        # a parameter that the body later shadows (`let mut x = x.to_vec()`): same rewrite without `mut`
+        i = plain[0]
+        ed.replace(src.toks[i].start, src.toks[i].end, name + "_0", "R11",
+                   "parameter renamed (it is shadowed in the body); rebinding inserted at body start")
+        ed.insert(src.toks[fn.body[0]].end, "\n        let %s = %s_0;" % (name, name), "R11",
+                  "rebinding of the renamed parameter")
+    else:
+        raise Drift("fn %s: parameter `%s` not found" % (fn.key, name))
 
 
 if __name__ == "__main__":
